@@ -107,7 +107,7 @@ def build_group(G, bdir, log):
             setattr(cfg, hook, G[hook])
     cfg.opaque_sizes = opaque_sizes(G, bdir, driver)
     spec = os.path.join(G['dir'], G.get('spec', 'spec.h'))
-    cfg.loop_contracts = parse_loop_contracts(spec, None)
+    cfg.loop_contracts = {k: v for k, v in parse_loop_contracts(spec, None).items() if k[0] not in G.get('_drop_loops_for', ())}
     u = cxx2c.Unit(ix, cfg)
     names = {}
     for r in G['roots']:
@@ -343,7 +343,7 @@ def run_job(G, u, gen, bdir, job, tier):
         gb2 = gb
     cmd = ['cbmc', gb2] + CBMC_BASE + ['--object-bits', str(job.get('object_bits', 8))] + list(job.get('flags', ()))
     if job.get('unwind'):
-        cmd += ['--unwind', str(job['unwind']), '--unwinding-assertions']
+        cmd += ['--unwind', str(job['unwind'])] + (['--no-unwinding-assertions', '--stop-on-fail'] if job.get('_refute') else ['--unwinding-assertions'])
     be = job.get('backend', 'sat')
     if be == 'cvc5':
         cmd += ['--cvc5']
@@ -374,6 +374,13 @@ def run_job(G, u, gen, bdir, job, tier):
     for x in data:
         if 'result' in x:
             props = x['result']
+        elif 'property' in x and 'status' in x and 'trace' in x:
+            # --stop-on-fail (refutation runs): the one failed property is reported on its own
+            y = dict(x)
+            y['status'] = 'FAILURE' if str(x['status']).lower().startswith('fail') else x['status']
+            locs = [st.get('sourceLocation') for st in x['trace'] if st.get('sourceLocation')]
+            y.setdefault('sourceLocation', locs[-1] if locs else {})
+            props = props + [y]
         if x.get('messageType') in ('WARNING', 'ERROR'):
             warnings.append(x.get('messageText', ''))
         if 'cProverStatus' in x:
@@ -469,6 +476,28 @@ def run_job(G, u, gen, bdir, job, tier):
     return res
 
 
+def try_refute(G, job, bdir, tier, why):
+    """refutation fallback: the loop contracts of job['enforce'] no longer fit the code (restructured loop).  The function contract
+    cannot be proved without them, but it can still be REFUTED: rebuild the group without these loop contracts and run the same
+    contract job bounded (--unwind N, paths beyond the bound cut by assumption).  A counterexample found this way is a real
+    execution of the lowered function under its precondition that breaks an obligation -> violation; none found -> still undecided."""
+    G2 = dict(G)
+    G2['_drop_loops_for'] = {job['enforce']}
+    gb = os.path.join(bdir, G['name'] + '_refute_' + re.sub(r'\W', '_', job['id']))
+    try:
+        u, gen = build_group(G2, gb, {'groups': {}})
+    except Exception:
+        return None
+    j2 = dict(job)
+    j2.update(loops=False, unwind=job['refute_unwind'], _refute=True, id=job['id'] + '.refute', no_twin=True,
+              timeout=job.get('refute_timeout', 900), mem_gb=job.get('refute_mem_gb', 20))
+    r = run_job(G2, u, gen, gb, j2, tier)
+    if r['status'] != 'failed':
+        return None
+    r['refuted_after'] = why
+    return r
+
+
 def extract_inputs(trace, harness):
     """last value of every harness local / global assigned in the harness or by contract pre-state set-up"""
     vals = {}
@@ -539,7 +568,17 @@ def main():
             try:
                 u, gen = build_group(G, gb, log)
             except cxx2c.Abort as e:
-                undecided.append('group %s: extraction: %s' % (G['name'], e))
+                msg = 'group %s: extraction: %s' % (G['name'], e)
+                refuted = False
+                if 'loop contract' in str(e):
+                    for j in G['jobs']:
+                        if j.get('refute_unwind') and j.get('enforce') and ('%s' % j['enforce']) in str(e) and prop in j.get('props', [G.get('prop')]):
+                            r = try_refute(G, j, bdir, tier, msg)
+                            if r is not None:
+                                results.append(r)
+                                refuted = True
+                if not refuted:
+                    undecided.append(msg)
                 continue
             for j in G['jobs']:
                 if prop not in j.get('props', [G.get('prop')]):
@@ -553,7 +592,13 @@ def main():
             futs = [ex.submit(run_job, G, u, gen, gb, j, tier) for (G, u, gen, gb, j) in work]
             for f, w in zip(futs, work):
                 try:
-                    results.append(f.result())
+                    r = f.result()
+                    if r['status'] == 'undecided' and w[4].get('refute_unwind') and w[4].get('loops') and \
+                            re.search(r'goto-cc failed|loop contract|loop-invariant|goto-instrument failed', r.get('reason') or ''):
+                        r2 = try_refute(w[0], w[4], bdir, tier, r.get('reason'))
+                        if r2 is not None:
+                            r = r2
+                    results.append(r)
                 except Exception as e:
                     undecided.append('job %s crashed: %s' % (w[4]['id'], traceback.format_exc()[-1500:]))
     except Undecided as e:
@@ -575,6 +620,19 @@ def finish(prop, tier, seed, t0, log, results, undecided, bdir, keep):
     backends = {}
     solver_time = 0.0
     funcs = []
+    # agreement specs: some contracts pin a convention that two functions must SHARE (e.g. the probe sequence of insert and lookup).
+    # If the obligations tied to the convention fail in every function that shares it, the code may have moved to a new common
+    # convention, which per-function contracts cannot judge: undecided, not a violation.  Failing in only some of them is disagreement.
+    for G in all_groups():
+        for ag in G.get('agree', ()):
+            rs = [r for r in results if r['id'] in ag['jobs']]
+            if len(rs) != len(ag['jobs']) or not all(r['status'] == 'failed' for r in rs):
+                continue
+            fails = [p for r in rs for p in r['props'] if p['status'] == 'FAILURE' and not p.get('twin')]
+            if all(re.search(ag['pattern'], (p.get('property') or '') + ' ' + p['description']) for p in fails):
+                for r in rs:
+                    r['status'] = 'undecided'
+                    r['reason'] = 'agreement %s: the shared convention changed in all of %s; per-function contracts cannot decide whether they still agree' % (ag['name'], ag['jobs'])
     for r in results:
         solver_time += r.get('solver_s', 0.0)
         if r['status'] in ('undecided', 'vacuous'):
